@@ -8,7 +8,10 @@ CONSTANTS CapsStride, MaskStride, NChunks
 VARIABLES st      \* <<"root">> | <<"chunk", c>> | <<"obj", ctor, capsNum, setop>> | <<"pos", ctor, caps, setop, arcmode, outmask>>
 
 Ctors == {"line", "direct", "arcdirect", "inverse"}
-SetOps(ctor) == IF ctor = "line" THEN {"none", "setdist", "setarc"} ELSE {"none"}
+\* the third point may be (re)defined after any constructor, also twice: only the last call counts
+SetOps(ctor) == {"none", "setdist", "setarc", "setdist+setarc", "setarc+setdist", "gsetdist", "gsetarc"}
+\* the full outmask sweep is made for the basic forms; the other forms are queried with a few masks (their subject is the third point)
+Basic(ctor, so) == (ctor = "line" /\ so \in {"none", "setdist", "setarc"}) \/ (ctor # "line" /\ so = "none")
 AllMasks == 0..511
 CapsSample == {m \in AllMasks : m % CapsStride = 0 \/ m \in {0, 1, 5, 16, 24, 261, 277, 511}}
 MaskSample == {m \in AllMasks : m % MaskStride = 0 \/ m \in {0, 8, 15, 127, 255, 256, 383, 511}}
@@ -18,7 +21,7 @@ Next ==
   \/ st = <<"root">> /\ \E c \in 0..(NChunks - 1) : st' = <<"chunk", c>>
   \/ st[1] = "chunk" /\ \E ctor \in Ctors, c \in {m \in AllMasks : m % NChunks = st[2]} :
         \E so \in SetOps(ctor) : st' = <<"obj", ctor, c, so>>
-  \/ st[1] = "obj" /\ \E am \in {TRUE, FALSE}, om \in (IF st[3] \in CapsSample THEN AllMasks ELSE MaskSample) :
+  \/ st[1] = "obj" /\ \E am \in {TRUE, FALSE}, om \in (IF ~Basic(st[2], st[4]) THEN {0, 15, 511} ELSE IF st[3] \in CapsSample THEN AllMasks ELSE MaskSample) :
         st' = <<"pos", st[2], st[3], st[4], am, om>>
 
 (* invariants of the model *)
